@@ -1,6 +1,6 @@
 //! One module per feature configuration, all linked into this process.
 
-use crate::oracle::Fmt;
+use crate::fmt::Fmt;
 
 #[derive(Clone, Copy, Debug, Default, PartialEq, Eq)]
 pub struct PathInfo {
